@@ -24,7 +24,7 @@ import (
 // still observes its recorded snapshot.
 
 type opC14 struct {
-	Kind     string     `json:"kind"` // unmarshal | readpacket | build | scribble | encode | render | setter | redecode | reuse-connect | transfer
+	Kind     string     `json:"kind"`             // unmarshal | readpacket | build | scribble | encode | render | setter | redecode | reuse-connect | transfer
 	To       int        `json:"to,omitempty"`     // transfer: destination slot
 	Pick     int        `json:"pick,omitempty"`   // transfer: which field
 	Follow   bool       `json:"follow,omitempty"` // transfer: then give the destination (and the source list) another value
